@@ -590,4 +590,144 @@ Proof.
            split; [eapply same_trans; eauto|]. rewrite X4. apply same_view. exact B.
 Qed.
 
+
+(* ---------- quit ---------- *)
+Definition dirty_slot (x : slot) : bool := match x with Some b => snd (lb_modified Lo (b_lb b)) | None => false end.
+Definition dirty_at s (k : nat) : bool := match nth_error (bufs s) k with Some x => dirty_slot x | None => false end.
+
+Lemma modified_snd s i : snd (bufs_modified Lo s i) = dirty_at s i.
+Proof. unfold bufs_modified, dirty_at. destruct (nth_error (bufs s) i) as [[b|]|]; reflexivity. Qed.
+Lemma modified_other s i j : i <> j -> nth_error (bufs (fst (bufs_modified Lo s i))) j = nth_error (bufs s) j.
+Proof.
+  intro N. unfold bufs_modified. destruct (nth_error (bufs s) i) as [[b|]|]; cbn; auto. apply nth_error_set_nth_neq. exact N.
+Qed.
+Lemma modified_xv s i : xv (fst (bufs_modified Lo s i)) = xv s.
+Proof. unfold bufs_modified. destruct (nth_error (bufs s) i) as [[b|]|]; reflexivity. Qed.
+Lemma modified_at s i b : nth_error (bufs s) i = Some (Some b) -> nth_error (bufs (fst (bufs_modified Lo s i))) i = Some (Some (bump b)).
+Proof.
+  intro E. unfold bufs_modified. rewrite E. cbn. apply nth_error_set_nth_eq. apply nth_error_Some. congruence.
+Qed.
+Lemma switch_slot0 s i x : nth_error (upd0 (fun b => set_view b (xv s)) (bufs s)) i = Some x -> slot0 (bufs_switch s i) = x.
+Proof. intro E. rewrite slot0_nth, switch_bufs, (switch_nth0 _ i x E). reflexivity. Qed.
+
+Lemma quit_walk_spec : forall n s i, let r := quit_walk Lo s i n in
+  xquit (fst r) = xquit s /\
+  ((snd r = false /\ forall k, (i <= k < i + n)%nat -> dirty_at s k = false)
+   \/ (snd r = true /\ exists k b, (i <= k < i + n)%nat /\ nth_error (bufs s) k = Some (Some b) /\ dirty_slot (Some b) = true /\
+        (forall k', (i <= k' < k)%nat -> dirty_at s k' = false) /\
+        slot0 (fst r) = Some (if Nat.eqb k 0 then set_view (bump b) (xv s) else bump b))).
+Proof.
+  induction n as [|n IH]; intros s i; cbn zeta; cbn [quit_walk].
+  - split; [reflexivity|]. left. split; [reflexivity|]. intros; lia.
+  - pose proof (modified_snd s i) as D. pose proof (modified_fields s i) as (_ & _ & _ & _ & Q & _).
+    pose proof (modified_xv s i) as X. pose proof (modified_other s i) as Oth. pose proof (modified_at s i) as At.
+    destruct (bufs_modified Lo s i) as [s1 d]. cbn [fst snd] in *. destruct d.
+    + cbn [fst snd]. split; [destruct (switch_fields s1 i) as (_ & _ & _ & _ & Q2 & _); congruence|]. right. split; [reflexivity|].
+      unfold dirty_at in D. destruct (nth_error (bufs s) i) as [[b|]|] eqn:E; try discriminate.
+      exists i, b. split; [lia|]. split; [first [exact E|reflexivity]|]. split; [symmetry; exact D|]. split; [intros; lia|].
+      apply switch_slot0. rewrite X. specialize (At b eq_refl). destruct i as [|i]; cbn [Nat.eqb].
+      * destruct (bufs s1) as [|y r]; cbn in *; [discriminate|]. inversion At; subst. reflexivity.
+      * rewrite upd0_tail by lia. exact At.
+    + specialize (IH s1 (S i)). cbn zeta in IH. destruct IH as [Q2 IH]. split; [congruence|].
+      assert (Da : forall k, (S i <= k)%nat -> dirty_at s1 k = dirty_at s k).
+      { intros k Hk. unfold dirty_at. rewrite Oth by lia. reflexivity. }
+      destruct IH as [[F A]|[F (k & b & Hk & Hb & Db & Hmin & S0)]].
+      * left. split; [exact F|]. intros k Hk. destruct (Nat.eq_dec k i) as [->|N]; [symmetry; exact D|]. rewrite <- Da by lia. apply A. lia.
+      * right. split; [exact F|]. exists k, b. split; [lia|]. split; [rewrite <- Oth with (j := k) by lia; exact Hb|]. split; [exact Db|].
+        split. { intros k' Hk'. destruct (Nat.eq_dec k' i) as [->|N]; [symmetry; exact D|]. rewrite <- Da by lia. apply Hmin. lia. }
+        rewrite S0. destruct k; [lia|]. reflexivity.
+Qed.
+
+Theorem quit_walk_thm s : let s' := fst (ec_quit Lo s false) in
+  ((forall k, (k < NB)%nat -> dirty_at s k = false) -> xquit s' = true) /\
+  (forall k, (k < NB)%nat -> dirty_at s k = true -> (forall k', (k' < k)%nat -> dirty_at s k' = false) ->
+     xquit s' = xquit s /\ exists b, nth_error (bufs s) k = Some (Some b) /\
+     slot0 s' = Some (if Nat.eqb k 0 then set_view (bump b) (xv s) else bump b)).
+Proof.
+  cbn zeta. unfold ec_quit. pose proof (quit_walk_spec NB s 0) as H. cbn zeta in H.
+  destruct (quit_walk Lo s 0 NB) as [s1 f]. cbn [fst snd] in H. destruct H as [Q H]. split.
+  - intro Clean. destruct H as [[-> _]|[-> (k & b & Hk & Hb & Db & _)]]; [reflexivity|].
+    exfalso. specialize (Clean k ltac:(lia)). unfold dirty_at in Clean. rewrite Hb in Clean. congruence.
+  - intros k Hk Dk Hmin. destruct H as [[-> A]|[-> (k2 & b & Hk2 & Hb & Db & Hmin2 & S0)]].
+    + rewrite A in Dk by lia. discriminate.
+    + assert (k2 = k).
+      { destruct (lt_eq_lt_dec k2 k) as [[Hlt|Heq]|Hgt]; auto.
+        - specialize (Hmin k2 Hlt). unfold dirty_at in Hmin. rewrite Hb in Hmin. congruence.
+        - specialize (Hmin2 k ltac:(lia)). congruence. }
+      subst k2. cbn [fst]. split; [exact Q|]. exists b. auto.
+Qed.
+
+(* ---------- the buffer reached is the one named ---------- *)
+Lemma goto_reaches s i b : (1 <= i)%nat -> nth_error (bufs s) i = Some (Some b) -> (xwa s = true \/ dirty_at s 0 = false) ->
+  let s' := fst (buffer_goto Lo s (Some i)) in slot0 s' = Some b /\ xv s' = b_view b /\ fs s' = fs s.
+Proof.
+  intros Hi Hb Hok. cbn zeta. unfold buffer_goto, occupied. rewrite Hb.
+  assert (G : forall s0, nth_error (bufs s0) i = Some (Some b) -> slot0 (bufs_switch s0 i) = Some b /\ xv (bufs_switch s0 i) = b_view b /\ fs (bufs_switch s0 i) = fs s0).
+  { intros s0 H0. assert (S0 : slot0 (bufs_switch s0 i) = Some b) by (apply switch_slot0; rewrite upd0_tail by exact Hi; exact H0).
+    split; [exact S0|]. split; [rewrite switch_xv, S0; reflexivity|]. apply switch_fields. }
+  destruct (xwa s) eqn:W; [apply G; exact Hb|]. destruct Hok as [?|D]; [discriminate|].
+  pose proof (modified_snd s 0) as Ds. pose proof (modified_other s 0 i ltac:(lia)) as Oth. pose proof (modified_fields s 0) as (_ & _ & F & _).
+  destruct (bufs_modified Lo s 0) as [s1 d]. cbn [fst snd] in *. rewrite D in Ds. subst d. cbn [fst].
+  rewrite <- F. apply G. rewrite Oth. exact Hb.
+Qed.
+
+Theorem reaches_id s n i : first_idx (has_id n) (bufs s) = Some i -> (1 <= i)%nat -> (xwa s = true \/ dirty_at s 0 = false) ->
+  let s' := fst (ec_buffer_id Lo s n) in
+  exists b, nth_error (bufs s) i = Some (Some b) /\ b_id b = n /\ slot0 s' = Some b /\ xv s' = b_view b /\ fs s' = fs s.
+Proof.
+  intros F Hi Hok. cbn zeta. unfold ec_buffer_id. rewrite F. destruct (first_idx_some _ _ _ F) as (x & Hx & Fx & _).
+  destruct x as [b|]; [|discriminate]. cbn in Fx. apply Z.eqb_eq in Fx. exists b. split; [exact Hx|]. split; [exact Fx|].
+  apply goto_reaches; auto.
+Qed.
+Theorem id_found s n j b : nth_error (bufs s) j = Some (Some b) -> b_id b = n -> first_idx (has_id n) (bufs s) <> None.
+Proof.
+  intros H E. eapply first_idx_found; [eapply nth_error_In; exact H|]. cbn. apply Z.eqb_eq. exact E.
+Qed.
+Theorem reaches_alias s k b : (1 <= k < 3)%nat -> nth_error (bufs s) k = Some (Some b) -> (xwa s = true \/ dirty_at s 0 = false) ->
+  let s' := fst (ec_buffer_alias Lo s k) in slot0 s' = Some b /\ xv s' = b_view b /\ fs s' = fs s.
+Proof.
+  intros Hk Hb Hok. cbn zeta. unfold ec_buffer_alias. replace (k <? 3)%nat with true by (symmetry; apply Nat.ltb_lt; lia).
+  apply goto_reaches; auto; lia.
+Qed.
+
+
+(* :e of a path that is already open switches to that buffer and reads nothing.  (Stated for the forms
+   that skip the dirty test of the current buffer, e! / ew! / writeany; with the test the state first
+   passes through bufs_modified, which only bumps the counter of slot 0.) *)
+Theorem reaches_path s bang a p i b : bang || xwa s = true -> pathexpand s a = Some p -> p <> [] ->
+  bufs_find s p = Some i -> (1 <= i)%nat -> nth_error (bufs s) i = Some (Some b) ->
+  ec_edit Lo s bang false a = (bufs_switch s i, [], true) /\
+  slot0 (bufs_switch s i) = Some b /\ xv (bufs_switch s i) = b_view b /\ fs (bufs_switch s i) = fs s /\ b_path b = canon p.
+Proof.
+  intros Hb Hp Hne Hf Hi Hn. split.
+  - unfold ec_edit. rewrite Hb, Hp. destruct p as [|x r]; [congruence|]. rewrite andb_false_r. rewrite Hf. reflexivity.
+  - assert (S0 : slot0 (bufs_switch s i) = Some b) by (apply switch_slot0; rewrite upd0_tail by exact Hi; exact Hn).
+    split; [exact S0|]. split; [rewrite switch_xv, S0; reflexivity|]. split; [apply switch_fields|].
+    unfold bufs_find in Hf. destruct (first_idx_some _ _ _ Hf) as (x & Hx & Fx & _).
+    assert (x = Some b) by congruence. subst x. cbn in Fx. apply path_eqb_eq in Fx. exact Fx.
+Qed.
+
+(* :e # reaches the alternate buffer (slot 1), provided its path differs from the current one *)
+Theorem reaches_alt s bang b0 b1 : bang || xwa s = true ->
+  nth_error (bufs s) 0 = Some (Some b0) -> nth_error (bufs s) 1 = Some (Some b1) ->
+  b_path b1 <> [47%N] -> b_path b0 <> b_path b1 ->
+  fst (fst (ec_edit Lo s bang false PAlt)) = bufs_switch s 1 /\ snd (fst (ec_edit Lo s bang false PAlt)) = [] /\
+  slot0 (bufs_switch s 1) = Some b1 /\ xv (bufs_switch s 1) = b_view b1 /\ fs (bufs_switch s 1) = fs s.
+Proof.
+  intros Hb H0 H1 Hs Hd.
+  set (p := match b_path b1 with [] => [47%N] | q => q end).
+  assert (Hp : pathexpand s PAlt = Some p) by (unfold pathexpand; rewrite H1; reflexivity).
+  assert (Hne : p <> []) by (unfold p; destruct (b_path b1); discriminate).
+  assert (Hc : canon p = b_path b1).
+  { unfold p, canon. destruct (b_path b1) as [|x r] eqn:E; [reflexivity|].
+    destruct (path_eqb (x :: r) [47%N]) eqn:Q; [|reflexivity]. apply path_eqb_eq in Q. congruence. }
+  assert (Hf : bufs_find s p = Some 1%nat).
+  { unfold bufs_find. rewrite Hc. destruct (bufs s) as [|x0 [|x1 r]]; cbn in H0, H1; try discriminate.
+    inversion H0; inversion H1; subst. cbn.
+    destruct (path_eqb (b_path b0) (b_path b1)) eqn:Q; [apply path_eqb_eq in Q; congruence|].
+    replace (path_eqb (b_path b1) (b_path b1)) with true by (symmetry; apply path_eqb_eq; reflexivity). reflexivity. }
+  destruct (reaches_path s bang PAlt p 1 b1 Hb Hp Hne Hf ltac:(lia) H1) as (E & A & B & C & _).
+  rewrite E. cbn. auto.
+Qed.
+
 End Props.
